@@ -184,7 +184,14 @@ pub struct RawFri {
 
 fn raw_fri() -> BoxedStrategy<RawFri> {
     bx((
-        (1usize..=3, 0usize..=3, 0u8..3, prop::collection::vec(1u8..=4, 0..=5), 1u8..=4, 0u8..=7),
+        (
+            1usize..=3,
+            0usize..=3,
+            0u8..3,
+            prop_oneof![1 => prop::collection::vec(1u8..=4, 0..=1), 5 => prop::collection::vec(1u8..=4, 1..=5)],
+            1u8..=4,
+            prop_oneof![3 => 0u8..=2, 1 => 0u8..=7],
+        ),
         (0u8..=4, 0u32..=8, 1usize..=12, prop::bool::weighted(0.3), 0u8..=5),
     )
         .prop_map(|((rate_bits, cap_height, strat_kind, fixed, arity, final_bits), (min_opt, pow_bits, queries, hiding, pad))| RawFri {
@@ -349,9 +356,45 @@ struct Flow<'a, C: GenericConfig<D, F = F>> {
     prove: Box<dyn Fn(&mut Chal<C>) -> Proof<C> + 'a>,
     keccak: bool,
     shape_hash: u64,
+    /// oracle -> polynomial index (as used by `FriPolynomialInfo`) -> generated coefficients
+    raw_polys: Vec<Vec<&'a Vec<u64>>>,
 }
 
 impl<'a, C: GenericConfig<D, F = F>> Flow<'a, C> {
+    /// Reference value of the combined quotient of instance `ii` at the point selected by query
+    /// index `x_index` (index into the largest LDE domain), for the given claimed openings:
+    /// `sum <- sum * alpha^{#polys_i} + (sum_j alpha^j f_ij(x) - sum_j alpha^j v_ij) / (x - z_i)`
+    /// over the batches for which an opening batch is present. u128 arithmetic only.
+    fn ref_combine_at(&self, ii: usize, claimed: &[Vec<[u64; 2]>], alpha: G2, x_index: usize) -> G2 {
+        let rate = self.params.config.rate_bits;
+        let lde0 = self.degree_bits[0] + rate;
+        let lde = self.degree_bits[ii] + rate;
+        let idx = x_index >> (lde0 - lde);
+        let x = G(MULT_GEN).mul(ref_pow(root_g(lde), bitrev(idx, lde) as u64));
+        let xe = G2([x, G(0)]);
+        let mut sum = G2::zero();
+        for (b, vals) in self.instances[ii].batches.iter().zip(claimed) {
+            let mut re = G2::zero();
+            let mut ap = G2::one();
+            for p in &b.polynomials {
+                let cf: Vec<G> = self.raw_polys[p.oracle_index][p.polynomial_index].iter().map(|&c| G::new(c)).collect();
+                let fx = horner(&cf, x);
+                re = re.add(ap.mul(G2([fx, G(0)])));
+                ap = ap.mul(alpha);
+            }
+            // `ap` is now alpha^{#polys}: the shift applied to the running sum
+            let mut ro = G2::zero();
+            let mut aq = G2::one();
+            for &v in vals {
+                ro = ro.add(aq.mul(G2::new(v)));
+                aq = aq.mul(alpha);
+            }
+            let z = g2(b.point);
+            sum = sum.mul(ap).add(re.sub(ro).mul(xe.sub(z).inv()));
+        }
+        sum
+    }
+
     fn reductions(&self) -> usize {
         self.params.reduction_arity_bits.len()
     }
@@ -482,6 +525,29 @@ fn common_devs<C: GenericConfig<D, F = F>>(
         return Err(format!("honest opening proof not accepted ({}) [{}]", v.text(), fl.describe()));
     }
     st.label("dev:honest");
+    // independent look at what the prover committed to: the value the first reduction layer (or, without
+    // reductions, the final polynomial) holds at each queried point is the reference combination
+    {
+        let alpha = g2(ch.fri_alpha);
+        for (q, &x_index) in ch.fri_query_indices.iter().enumerate() {
+            let want = fl.ref_combine_at(0, &truth[0], alpha, x_index);
+            let got = match params.reduction_arity_bits.first() {
+                Some(&a0) => g2(proof.query_round_proofs[q].steps[0].evals[x_index & ((1 << a0) - 1)]),
+                None => {
+                    let x = G(MULT_GEN).mul(ref_pow(root_g(params.lde_bits()), bitrev(x_index, params.lde_bits()) as u64));
+                    let cf: Vec<G2> = proof.final_poly.coeffs.iter().map(|&c| g2(c)).collect();
+                    horner(&cf, G2([x, G(0)]))
+                }
+            };
+            if want != got {
+                return Err(format!(
+                    "honest prover's committed value at query index {} is {:?}, reference combination of the committed polynomials and true openings is {:?} [{}]",
+                    x_index, got.raw(), want.raw(), fl.describe()
+                ));
+            }
+        }
+        st.label("honest_first_layer_matches_reference");
+    }
     if !pow_sufficient(ch.fri_pow_response.to_canonical_u64(), pow_bits) {
         return Err(format!("honest proof accepted with an insufficient proof-of-work response {} (pow_bits={})", ch.fri_pow_response.to_canonical_u64(), pow_bits));
     }
@@ -531,6 +597,44 @@ fn common_devs<C: GenericConfig<D, F = F>>(
                 "wrong opening ACCEPTED under fixed challenges: instance {} batch {} element {} coord {}: claimed {} true {} [{}]",
                 ii, bi, ei, co, new, old, fl.describe()
             ));
+        }
+    }
+
+    // ---- (a3)/(a4) the claimed openings lack a value / a whole batch (honest proof, fixed challenges) ----
+    {
+        let ii = frac(dev.sel[10], truth.len());
+        let bi = frac(dev.sel[11], truth[ii].len());
+        let last = *truth[ii][bi].last().unwrap();
+        if last != [0, 0] {
+            // a missing trailing value is read as a claimed value of zero
+            let mut claimed = truth.clone();
+            claimed[ii][bi].pop();
+            let v = fl.verify(&mk_openings(&claimed), &ch, &fl.caps, &proof);
+            st.evals(1);
+            st.label("dev:a_opening_value_missing");
+            st.nontrivial(&(fl.shape_hash, "a3", ii, bi));
+            if v.accepted() {
+                return Err(format!("claimed openings without the (non-zero) last value of instance {} batch {} ACCEPTED [{}]", ii, bi, fl.describe()));
+            }
+        }
+        if truth[ii].len() >= 2 {
+            // no claim is made for the missing batch; the verifier must still notice that the committed
+            // combination contains it, unless that batch contributes nothing at every queried point
+            let mut claimed = truth.clone();
+            claimed[ii].pop();
+            let alpha = g2(ch.fri_alpha);
+            let differs = ch.fri_query_indices.iter().any(|&x| fl.ref_combine_at(ii, &claimed[ii], alpha, x) != fl.ref_combine_at(ii, &truth[ii], alpha, x));
+            let v = fl.verify(&mk_openings(&claimed), &ch, &fl.caps, &proof);
+            st.evals(1);
+            if differs {
+                st.label("dev:a_opening_batch_missing");
+                st.nontrivial(&(fl.shape_hash, "a4", ii));
+                if v.accepted() {
+                    return Err(format!("claimed openings without the last batch of instance {} ACCEPTED [{}]", ii, fl.describe()));
+                }
+            } else {
+                st.label(&format!("a_opening_batch_missing_no_contribution_{}", v.short()));
+            }
         }
     }
 
@@ -761,6 +865,23 @@ fn common_devs<C: GenericConfig<D, F = F>>(
                 }
             };
             let v = fl.verify(&op, &ch, &fl.caps, &p);
+            if class == "commit_phase_merkle_caps" && e == ShapeEdit::DupLast {
+                // A surplus trailing cap is never indexed by the verifier; with fixed challenges it is unread
+                // (like pow_witness). It is bound through the transcript: one beta is drawn per cap.
+                st.label(&format!("e_exempt:surplus_commit_cap_{}", v.short()));
+                let c2 = fl.challenges(&op, &p);
+                let margin = params.lde_bits() * params.config.num_query_rounds + pow_bits as usize;
+                let v2 = fl.verify(&op, &c2, &fl.caps, &p);
+                if margin >= 40 {
+                    st.label("surplus_commit_cap_recomputed_challenges");
+                    if v2.accepted() {
+                        return Err(format!("FRI proof with a surplus commit-phase cap ACCEPTED with recomputed challenges [{}]", fl.describe()));
+                    }
+                } else {
+                    st.label(&format!("surplus_commit_cap_recomputed_low_margin_{}", v2.short()));
+                }
+                continue;
+            }
             st.label(&format!("shape:{}", if class.is_empty() { "root" } else { class.as_str() }));
             if nontrivial {
                 st.nontrivial(&(fl.shape_hash, "shape", i, e.name()));
@@ -794,7 +915,7 @@ pub struct Shape {
 }
 
 fn shape_strat(max_d: usize) -> BoxedStrategy<Shape> {
-    bx((1usize..=max_d).prop_flat_map(|d| {
+    bx(prop_oneof![1 => 1usize..=2, 4 => 3usize..=max_d].prop_flat_map(|d| {
         let n = 1usize << d;
         (
             prop::bool::weighted(0.25),
@@ -966,6 +1087,7 @@ fn single_case<C: GenericConfig<D, F = F>>(c: &Case, st: &mut Stats) -> Result<(
         }),
         keccak: s.keccak,
         shape_hash: hash_of(s),
+        raw_polys: s.oracles.iter().map(|o| o.polys.iter().collect()).collect(),
     };
     let (proof, _ch) = common_devs(&fl, &truth, dev, &c.edits, c.exhaustive, st)?;
 
@@ -1545,6 +1667,7 @@ fn batch_case<C: GenericConfig<D, F = F>>(c: &BatchCase, st: &mut Stats) -> Resu
         }),
         keccak: s.keccak,
         shape_hash: hash_of(s),
+        raw_polys: flat.clone(),
     };
     let (proof, _) = common_devs(&fl, &truth, &c.dev, &c.edits, c.exhaustive, st)?;
     st.sample(|| json!({"shape": fl.describe(), "leaves": numeric_leaves(&to_tree(&proof)).len()}));
@@ -1582,9 +1705,9 @@ pub fn run(ctx: &mut Ctx) {
     ctx.assumptions.push("salts and the honest prover's grinding result come from the library's own randomness / parallel search and are not replayed bit-exactly".into());
     ctx.shrink_iters = 60;
     let thorough = ctx.tier == Tier::Thorough;
-    let (n_single, n_edits) = ctx.tier.pick((320, 60), (6000, 120));
-    let n_high = ctx.tier.pick(400, 10_000);
-    let n_batch = ctx.tier.pick(200, 3000);
+    let (n_single, n_edits) = ctx.tier.pick((1200, 150), (10_000, 150));
+    let n_high = ctx.tier.pick(4000, 100_000);
+    let n_batch = ctx.tier.pick(600, 5000);
     ctx.run_sub("single_degree", n_single, 16, move || case_strat(7, n_edits, thorough), single_prop);
     ctx.run_sub("high_degree", n_high, 16, || high_strat(6), high_prop);
     ctx.run_sub("batched", n_batch, 16, move || batch_strat(n_edits, thorough), batch_prop);
